@@ -203,6 +203,11 @@ Definition exec_lmove (d : db) (args : list bytes) : reply * db :=
         match popped with
         | None => (RNil, d)
         | Some (x, l') =>
+          (* source = destination: the element is pushed back before the emptiness test, so the
+             key (and its deadline) survives even when it held a single element *)
+          if bytes_eqb src dst then
+            (RBulk x, db_set d dst (VList (if is dd (B "left") then x :: l' else l' ++ [x])))
+          else
           let d1 := put_list d src l' in
           let dl := match get_list d1 dst with LFound y => y | _ => [] end in
           let dl' := if is dd (B "left") then x :: dl else dl ++ [x] in
